@@ -240,7 +240,19 @@ func genTS(rt *rapid.T, from, to int64) int64 {
 	}
 }
 
+// spanID: a span id is unique within its trace only. In "shared" databases most spans take
+// an id that depends on their position alone, so the same 8-byte id occurs in several
+// traces (on matching and on non-matching spans); any stage that identifies a span by
+// span_id instead of (trace_id, span_id) then picks up foreign spans.
+func spanID(rt *rapid.T, shared bool, ti, si, salt int) string {
+	if shared && chance(rt, 75, "sharedSpanID") {
+		return fmt.Sprintf("5bad%010x%02x", 0, si+1)
+	}
+	return fmt.Sprintf("%08x%06x%02x", ti+1, si+1, salt)
+}
+
 func genDB(rt *rapid.T, from, to int64) refeval.TQDB {
+	shared := chance(rt, 35, "sharedSpanIDs")
 	db := refeval.TQDB{}
 	nt := rapid.IntRange(1, 5).Draw(rt, "ntraces")
 	for ti := 0; ti < nt; ti++ {
@@ -249,7 +261,7 @@ func genDB(rt *rapid.T, from, to int64) refeval.TQDB {
 		ns := rapid.IntRange(1, 5).Draw(rt, "nspans")
 		for si := 0; si < ns; si++ {
 			sp := refeval.TQSpan{
-				ID:      fmt.Sprintf("%08x%06x%02x", ti+1, si+1, rapid.IntRange(0, 255).Draw(rt, "spanSalt")),
+				ID:      spanID(rt, shared, ti, si, rapid.IntRange(0, 255).Draw(rt, "spanSalt")),
 				TS:      genTS(rt, from, to),
 				Dur:     pick(rt, spanDurs, "dur"),
 				Name:    pick(rt, spanNames, "spanName"),
@@ -336,6 +348,7 @@ func genSpreadSelector(rt *rapid.T) refeval.TQSelector {
 }
 
 func genSpreadDB(rt *rapid.T, from int64) refeval.TQDB {
+	shared := chance(rt, 35, "sharedSpanIDs")
 	nt := rapid.IntRange(6, 10).Draw(rt, "spreadTraces")
 	slots := make([]int, nt)
 	for i := range slots {
@@ -351,7 +364,7 @@ func genSpreadDB(rt *rapid.T, from int64) refeval.TQDB {
 		ns := rapid.IntRange(1, 3).Draw(rt, "spreadSpans")
 		for si := 0; si < ns; si++ {
 			sp := refeval.TQSpan{
-				ID:      fmt.Sprintf("%08x%06x%02x", ti+1, si+1, 0),
+				ID:      spanID(rt, shared, ti, si, 0),
 				TS:      base + int64(spread(rt, "bandOffset")%uint64(width/2)),
 				Dur:     pick(rt, []int64{0, 1_000_000, 2_000_000, 1_500_000_000}, "dur"),
 				Name:    pick(rt, []string{"op1", "op2", "x"}, "spanName"),
@@ -447,6 +460,7 @@ func genOrSpreadCase(rt *rapid.T) searchCase {
 	c.From, c.To = genWindow(rt)
 	from := c.From * 1e9
 	nt := rapid.IntRange(4, 8).Draw(rt, "orTraces")
+	shared := chance(rt, 35, "sharedSpanIDs")
 	used := map[int64]bool{}
 	for ti := 0; ti < nt; ti++ {
 		salt := rapid.Uint16().Draw(rt, "traceSalt")
@@ -463,7 +477,7 @@ func genOrSpreadCase(rt *rapid.T) searchCase {
 				ts = from - 1 - int64(spread(rt, "orBefore")%50)*1_000_000_000
 			}
 			sp := refeval.TQSpan{
-				ID:      fmt.Sprintf("%08x%06x%02x", ti+1, si+1, 0),
+				ID:      spanID(rt, shared, ti, si, 0),
 				TS:      ts,
 				Dur:     pick(rt, []int64{0, 1_000_000, 1_000_000_000, 2_000_000_000}, "dur"),
 				Name:    pick(rt, []string{"op1", "op2"}, "spanName"),
